@@ -73,6 +73,10 @@ def tt(v, _d=0) -> frozenset:
     if v is None or _d > 8:
         return E
     r = set(v.t) | set(v.ot)
+    if v.kind == "inst":
+        for f_ in v.x[1].values():
+            r |= tt(f_, _d + 1)
+        return frozenset(r)
     if v.elem is not None:
         r |= tt(v.elem, _d + 1)
     if v.kind == "map" and isinstance(v.x, V):
@@ -90,6 +94,10 @@ def vt(v, _d=0) -> frozenset:
     if v is None or _d > 8:
         return E
     r = set(v.t)
+    if v.kind == "inst":
+        for f_ in v.x[1].values():
+            r |= tt(f_, _d + 1)
+        return frozenset(r)
     if v.elem is not None:
         r |= tt(v.elem, _d + 1)
     if v.kind == "map" and isinstance(v.x, V):
@@ -110,9 +118,18 @@ def size_t(v) -> frozenset:
     return vt(v)
 
 
+def join_all(vs):
+    r = None
+    for v in vs:
+        r = join(r, v)
+    return r
+
+
 def add(v: V, t) -> V:
     if not t:
         return v
+    if v.kind == "inst":
+        return V("inst", v.t | frozenset(t), x=v.x)
     return V(v.kind, v.t | frozenset(t), v.elem, v.ot, v.oid, v.items, v.x)
 
 
@@ -137,6 +154,11 @@ def join(a: Optional[V], b: Optional[V], _d=0) -> Optional[V]:
         for k, v in b.x.items():
             g[k] = g.get(k, E) | v
         return V("graph", a.t | b.t, ot=a.ot | b.ot, oid=a.oid if a.oid == b.oid else ("join", a.oid, b.oid), x=g)
+    if a.kind == b.kind == "inst" and a.x[0] is b.x[0]:
+        flds = {}
+        for k in set(a.x[1]) | set(b.x[1]):
+            flds[k] = join(a.x[1].get(k), b.x[1].get(k), _d + 1)
+        return V("inst", a.t | b.t, x=(a.x[0], flds))
     if a.kind == "none":
         return b
     if b.kind == "none":
@@ -362,7 +384,9 @@ class TaintInterp:
         elif isinstance(tg, ast.Starred):
             self.assign(tg.value, v, env, pc, fi)
         elif isinstance(tg, ast.Attribute):
-            pass
+            base = self.ev(tg.value, env, pc, fi)
+            if base.kind == "inst":
+                base.x[1][tg.attr] = join(base.x[1].get(tg.attr), v)
         else:
             raise AnalysisError(f"taint interpreter: assignment target {type(tg).__name__} at {fi.loc(tg)}")
 
@@ -757,6 +781,12 @@ class TaintInterp:
                 return b
         if b.kind == "igraph" and e.attr == "vs":
             return V("vs", x=b)
+        if b.kind == "inst":
+            if e.attr in b.x[1]:
+                return add(b.x[1][e.attr], b.t)
+            m = self.repo.mro_method(b.x[0], e.attr)
+            if m is not None and any(norm(d).split(".")[-1] in ("property", "cached_property") for d in m.node.decorator_list):
+                return self.call_fn(m, [b], {}, pc)
         return V("bound", x=(b, e.attr))
 
     # ---- calls
@@ -788,15 +818,19 @@ class TaintInterp:
             if r[0] == "ext":
                 return self.lib(r[1], args, kw, e, pc, fi)
             if r[0] == "class":
-                return sc(frozenset().union(*[tt(a) for a in args]) if args else E)
+                return self.construct(r[1], args, kw, pc, e, fi)
         if isinstance(f, ast.Attribute):
             if isinstance(f.value, (ast.Name, ast.Attribute)) and not (isinstance(f.value, ast.Name) and f.value.id in env):
                 r = self.repo.resolve_dotted(fi.module, f)
                 if r is not None:
                     if r[0] == "func":
+                        if r[1].cls is not None and any(norm(d).split(".")[-1] == "classmethod" for d in r[1].node.decorator_list):
+                            return self.call_fn(r[1], [V("class", x=r[1].cls)] + args, kw, pc)
                         return self.call_fn(r[1], args, kw, pc)
                     if r[0] == "ext":
                         return self.lib(r[1], args, kw, e, pc, fi)
+                    if r[0] == "class":
+                        return self.construct(r[1], args, kw, pc, e, fi)
                 if isinstance(f.value, ast.Name) and f.value.id == "dict" and f.attr == "fromkeys":
                     return self.builtin("dict.fromkeys", args, kw, e, env, pc, fi)
             recv = self.ev(f.value, env, pc, fi)
@@ -804,7 +838,30 @@ class TaintInterp:
         fv = self.ev(f, env, pc, fi)
         return self.call_value(fv, args, kw, e, env, pc, fi)
 
+    def construct(self, ci, args, kw, pc, e, fi):
+        """an instance of a tucan class: fields set by __init__ (self.x = ...) or, for a dataclass / NamedTuple, by position"""
+        inst = V("inst", x=(ci, {}))
+        init = self.repo.mro_method(ci, "__init__")
+        if init is not None:
+            self.call_fn(init, [inst] + list(args), kw, pc)
+            return inst
+        names = [st.target.id for st in ci.node.body if isinstance(st, ast.AnnAssign) and isinstance(st.target, ast.Name)]
+        if not names and (args or kw):
+            return sc(frozenset().union(*[tt(a) for a in args]) if args else E)
+        for n_, a_ in zip(names, args):
+            inst.x[1][n_] = a_
+        for k_, a_ in kw.items():
+            inst.x[1][k_] = a_
+        return inst
+
     def call_value(self, fv: V, args, kw, e, env, pc, fi):
+        if fv.kind == "class":
+            return self.construct(fv.x, args, kw, pc, e, fi)
+        if fv.kind == "bound" and fv.x[0].kind == "inst":
+            recv, name = fv.x
+            m = self.repo.mro_method(recv.x[0], name)
+            if m is not None:
+                return self.call_fn(m, [recv] + list(args), kw, pc)
         if fv.kind == "func":
             x = fv.x
             if x[0] == "tucan":
@@ -1010,6 +1067,18 @@ class TaintInterp:
     def method(self, f, recv: V, name, a, kw, e, env, pc, fi):
         k = recv.kind
         allt = frozenset().union(*[tt(x) for x in a]) if a else E
+        if k == "inst":
+            m = self.repo.mro_method(recv.x[0], name)
+            if m is not None:
+                decos = [norm(d).split(".")[-1] for d in m.node.decorator_list]
+                if "staticmethod" in decos:
+                    return self.call_fn(m, list(a), kw, pc)
+                return self.call_fn(m, [recv] + list(a), kw, pc)
+            if name == "_asdict":
+                return mp(join_all(list(recv.x[1].values())) if recv.x[1] else sc())
+            if name == "_replace":
+                flds = dict(recv.x[1]); flds.update(kw)
+                return V("inst", recv.t, x=(recv.x[0], flds))
         if k == "graph":
             if name == "copy":
                 return V("graph", recv.t, oid=recv.oid, x=dict(recv.x))       # same nodes, same insertion order
